@@ -69,14 +69,18 @@ inline Mat shuffle_rows(Rng &rng, const Mat &A, int how) {
 
 inline void put_cx(Line &l, const Q &re, const Q &im) { l << re; l << im; }
 
-inline void gen_adapter_ops(Rng &rng, const Opts &o, std::vector<std::string> &lines) {
+// family 13: the ops of property C13 (block adapter, hybrid backend, unblock, complex adapter);
+// family 17: the ops of property C17 (every adapter incl. the block adapter, as_preconditioner / amg row order)
+inline void gen_adapter_ops(Rng &rng, const Opts &o, std::vector<std::string> &lines, int family) {
     long N = o.cases > 0 ? o.cases : (o.thorough() ? 3000 : 330);
+    static const std::vector<int> fam13 = { 3, 4, 5, 6, 7, 3, 5, 7 }, fam17 = { 0, 1, 2, 3, 8, 9, 10, 11, 12, 13, 0, 4 };
+    const std::vector<int> &menu = family == 13 ? fam13 : fam17;
     static const std::vector<std::string> idx = { "int", "long", "unsigned", "size_t", "ptrdiff_t" };
     const std::vector<Q> coefs = { Q(0), Q(1), Q(-1), Q::frac(2, 3), Q(2) };
     auto coef = [&]() { return rng.coin(3, 4) ? rng.pick(coefs) : rng.rat(); };
     const long big = o.thorough() ? 24 : 12;
     for (long k = 0; k < N; ++k) {
-        int which = (int)(k % 14);
+        int which = menu[k % menu.size()];
         Line l;
         if (which == 0) {                                        // tuple of ranges, every index type, optional ptr base
             long n = rng.range(0, big); Mat A = gen_sparse(rng, n, n, (int)rng.range(0, 60)); if (rng.coin(1, 3)) A = unsort(rng, A, rng.coin());
@@ -86,7 +90,7 @@ inline void gen_adapter_ops(Rng &rng, const Opts &o, std::vector<std::string> &l
             for (auto &p : ptr) p += base;
             for (size_t j = 0; j < A.col.size(); ++j) { col.push_back(A.col[j]); val.push_back(A.val[j]); }
             if (rng.coin(1, 4)) { col.push_back(0); val.push_back(Q(7)); }      // trailing slack the adapter must ignore
-            l << "ad_tuple" << idx[(k / 14) % 5] << n << ptr << col << val << gen_vec(rng, n);
+            l << "ad_tuple" << idx[(k / menu.size()) % 5] << n << ptr << col << val << gen_vec(rng, n);
         } else if (which == 1) {
             long n = rng.range(0, big), m = rng.coin(1, 3) ? rng.range(0, big) : n;
             Mat A = gen_sparse(rng, n, m, (int)rng.range(0, 60)); if (rng.coin(1, 3)) A = unsort(rng, A, rng.coin());
@@ -103,6 +107,7 @@ inline void gen_adapter_ops(Rng &rng, const Opts &o, std::vector<std::string> &l
             else if (fam == 3) { Mat S = gen_spd(rng, std::max<long>(1, nb), -1); A = kron(S, spd_block(rng, b, rng.coin())); }
             else if (fam == 4) A = gen_sparse(rng, nb * b, mb * b, (int)rng.range(5, 40));                       // no block structure at all
             else { long n = nb * b + rng.range(0, b - 1), m = mb * b + rng.range(0, b - 1); A = gen_sparse(rng, n, m, 30); } // mostly indivisible
+            if (rng.coin(1, 6)) A = unsort(rng, A, rng.coin());       // outside the adapter's domain (sorted rows): model correspondence only
             l << (which == 5 ? "ad_hybrid" : "ad_block") << b << A << coef() << gen_vec(rng, A.m) << coef() << gen_vec(rng, A.n);
         } else if (which == 6) {                                 // unblock
             long b = rng.range(2, 4), nb = rng.range(0, 5), mb = rng.coin(1, 3) ? rng.range(0, 5) : nb;
@@ -143,17 +148,22 @@ inline void gen_adapter_ops(Rng &rng, const Opts &o, std::vector<std::string> &l
         lines.push_back(l.get());
     }
     // malformed stream: both sides must answer bad-input
-    lines.push_back("ad_tuple int 2 3 0 1 2 2 0 5 2 1 1 2 1 1");              // column 5 in a 2 x 2 matrix
-    lines.push_back("ad_tuple short 1 2 0 1 1 0 1 1 1 1");                      // unknown index type
-    lines.push_back("ad_tuple long 2 3 0 2 1 2 0 1 2 1 1 2 1 1");               // ptr not monotone
     lines.push_back("ad_block 5 0 0 1 0 1 0");                                  // block size out of range
     lines.push_back("ad_block 2 2 2 1 0 1 1 3 1 1 2 1 1 1 2 1 1");              // column 3 in a 2-column matrix
-    lines.push_back("ad_reorder 2 2 1 0 1 1 1 1 2 0 2 2 1 1 2 1 1 2 0 0");      // perm entry out of range
-    lines.push_back("ad_reorder 2 2 1 0 1 1 1 1 2 1 1 2 1 1 2 1 1 2 0 0");      // not a permutation
-    lines.push_back("ad_scaled 2 2 1 0 1 1 1 1 1 1 2 1 1");                     // scale vector too short
     lines.push_back("ad_unblock 2 1 1 1 0 1 2 3");                              // truncated block
-    lines.push_back("ad_asprec 0 2 2 1 1 1 1 1 1 1 2 1 1");                     // row 0 has no diagonal entry
-    lines.push_back("ad_ublas 2 2 2 1 1 0 1 0 2 1 1");                          // unsorted row cannot be a uBlas compressed matrix
+    if (family == 13) {
+        lines.push_back("ad_complex 1 2 1 0 1 1 2 1 0 0 0");                    // not square
+        lines.push_back("ad_hybrid 3 3 3 0 0 0 1 2 1 1 0 3 0 0 0");             // x too short
+    } else {
+        lines.push_back("ad_tuple int 2 3 0 1 2 2 0 5 2 1 1 2 1 1");            // column 5 in a 2 x 2 matrix
+        lines.push_back("ad_tuple short 1 2 0 1 1 0 1 1 1 1");                  // unknown index type
+        lines.push_back("ad_tuple long 2 3 0 2 1 2 0 1 2 1 1 2 1 1");           // ptr not monotone
+        lines.push_back("ad_reorder 2 2 1 0 1 1 1 1 2 0 2 2 1 1 2 1 1 2 0 0");  // perm entry out of range
+        lines.push_back("ad_reorder 2 2 1 0 1 1 1 1 2 1 1 2 1 1 2 1 1 2 0 0");  // not a permutation
+        lines.push_back("ad_scaled 2 2 1 0 1 1 1 1 1 1 2 1 1");                 // scale vector too short
+        lines.push_back("ad_asprec 0 2 2 1 1 1 1 1 1 1 2 1 1");                 // row 0 has no diagonal entry
+        lines.push_back("ad_ublas 2 2 2 1 1 0 1 0 2 1 1");                      // unsorted row cannot be a uBlas compressed matrix
+    }
 }
 
 } // namespace vh
